@@ -482,6 +482,11 @@ impl Property for C03 {
             match fate {
                 Fate::NeverSentDuring(c) => {
                     sent_during += 1;
+                    match mi.msg {
+                        Msg::Syn { .. } => rep.probes.inc("syn_sent_into_partition"),
+                        Msg::Data { .. } | Msg::Fin { .. } => rep.probes.inc("tcp_segment_sent_into_partition"),
+                        Msg::Udp { .. } => {}
+                    }
                     if let (Some(r), None) = (recv, &violation) {
                         violation = Some(Violation::new(
                             "DeliveredWhilePartitioned",
@@ -493,6 +498,7 @@ impl Property for C03 {
                     }
                 }
                 Fate::NeverInFlight(c) => {
+                    rep.probes.inc("certainly_in_flight_at_partition_call");
                     // only a receipt after the call shows that the message survived it (an earlier one would be C14's business)
                     let recv = mi.recvs.iter().map(|r| &tr.evs[*r]).find(|r| r.seq > tr.evs[c].seq);
                     if let (Some(r), None) = (recv, &violation) {
